@@ -145,8 +145,9 @@ func H_C12_budget() {
 	}
 	snap, _ := db.NewSnapshot()
 	snap.Open()
-	vFSBudget(vRange("budget", 0, 0, vBound("maxbudget")))
+	vFault()
 	err := db.StoreToDisk(dir, snap, 1, nil)
+	vFaultCovered()
 	vFSHeal()
 	if err != nil {
 		vReach("store-failed")
@@ -161,6 +162,105 @@ func H_C12_budget() {
 		vScanCheck(db2, c, snap2, &g, "restore of a backup reported as successful")
 	}
 	vReach("c12-budget-done")
+}
+
+// vFault arms the fault oracle for the backup that follows: bound faultmode 0 = the disk fills after a symbolic
+// number of bytes (0..maxbudget) and every later write fails; 1 = one single file operation (create, Write, Close
+// of a written file, WriteFile; index 0..maxbudget) fails on its own and everything else succeeds.
+var vFaultK int
+
+// vFaultCovered: the range of failing indices reaches past the last operation the backup performs (so every
+// operation of it was made to fail on some path)
+func vFaultCovered() {
+	if vBound("faultmode") == 1 && vFSOps() <= vFaultK {
+		vReach("failop-beyond-last-operation")
+	}
+}
+
+func vFault() {
+	if vBound("faultmode") == 1 {
+		vFaultK = vRange("failop", 0, 0, vBound("maxbudget"))
+		vFSFailOp(vFaultK)
+	} else {
+		vFSBudget(vRange("budget", 0, 0, vBound("maxbudget")))
+	}
+}
+
+// H_C12_delta: disk-full budgets for a delta-mode backup with two writers while a mutation inside the item
+// callback makes the collector hand a dead item to one of the writers' delta files (which worker receives the
+// garbage list is a scheduling choice: deviations budget). Every delta file's flush/close failure must surface.
+func H_C12_delta() {
+	cfg, c := vConfig()
+	cfg.UseDeltaInterleaving()
+	DiskBlockSize = vBound("blocksize")
+	dir := vFSDir() + "/c12d"
+	db := NewWithConfig(cfg)
+	ws := vWriters(db, 2)
+	w := ws[0]
+	var g vSetModel
+	n := vBound("items")
+	for i := 0; i < n; i++ {
+		k := byte(10 + 7*i)
+		w.Put2(c.item(k, byte(i+1)))
+		g.put(int(k), c.val(byte(i+1)))
+	}
+	snap, _ := db.NewSnapshot()
+	snap.Open()
+	snap.Close() // only the reference handed to StoreToDisk stays: the collector can run during the backup
+	calls := 0
+	cb := func(e *ItemEntry) {
+		if calls == 0 {
+			k := byte(10 + 7*vRange("mkey", 0, 0, n-1))
+			w.Delete(c.item(k, 0))
+			s2, _ := db.NewSnapshot()
+			s2.Close()
+			vQuiesce()
+			if db.GetLastGCSn() > 0 {
+				vReach("gc-ran-during-backup")
+			}
+		}
+		calls++
+	}
+	if vBound("faultmode") == 2 {
+		// crash clause: the process dies after a symbolic number of file-system mutations
+		vFSCrashAt(vRange("crash", 0, 0, vBound("maxbudget")))
+		db.StoreToDisk(dir, snap, 1, cb)
+		if !vFSFrozen() {
+			vReach("store-completed-before-crash-point")
+		}
+		vFSHeal()
+		db2 := NewWithConfig(cfg)
+		snap2, lerr := db2.LoadFromDisk(dir, 1, nil)
+		if lerr == nil {
+			if snap2 == nil {
+				vFail("LoadFromDisk returned neither a snapshot nor an error")
+				return
+			}
+			vReach("partial-image-restored")
+			vScanCheck(db2, c, snap2, &g, "restore of what a crashed backup left behind")
+		} else {
+			vReach("partial-image-rejected")
+		}
+		vReach("c12-delta-done")
+		return
+	}
+	vFault()
+	err := db.StoreToDisk(dir, snap, 1, cb)
+	vFaultCovered()
+	vFSHeal()
+	if err != nil {
+		vReach("store-failed")
+		vReach("c12-delta-done")
+		return
+	}
+	vReach("store-succeeded")
+	db2 := NewWithConfig(cfg)
+	snap2, lerr := db2.LoadFromDisk(dir, 1, nil)
+	vAssert(lerr == nil && snap2 != nil, "a backup reported as successful can be restored")
+	if lerr == nil && snap2 != nil {
+		vScanCheck(db2, c, snap2, &g, "restore of a backup reported as successful")
+	}
+	vReach("c12-delta-done")
 }
 
 // H_C12_crash: the process dies after any number of file-system mutations of StoreToDisk into an empty
